@@ -431,6 +431,12 @@ mtbl_sorter_iter(struct mtbl_sorter *s)
 
 	for (size_t i = 0; i < reader_vec_size(s->readers); i++) {
 		struct mtbl_reader *r = reader_vec_value(s->readers,i);
+		if (r == NULL) {
+			/* A chunk could not be written (the merge function failed). */
+			mtbl_merger_destroy(&it->m);
+			free(it);
+			return (NULL);
+		}
 		mtbl_merger_add_source(it->m, mtbl_reader_source(r));
 	}
 
